@@ -27,8 +27,55 @@ def strip_ws(t):
     return ' '.join(re.sub(r'/\*[\s\S]*?\*/|--[^\n]*', ' ', t).split())
 
 
+def derived_inner_queries():
+    """inner queries generated from the live grammar: every (parent, child) production pair below the nonterminals `select` and `union`
+    (parenthesised members, set operations of parenthesised selects, clauses in every order the grammar allows)"""
+    from harness import c02u2
+    from engines import acttree as AT
+    from mindsdb_sql import parse_sql
+    dv, parser, rep, lexemes, _ = c02u2.env('mindsdb')
+    out, seen = [], set()
+    for p in dv.prods:
+        if p.name not in ('select', 'union'):
+            continue
+        for j, cp, tree in dv.pair_trees(p):
+            v = c02u2.VOCAB[0]
+            pools = AT.Pools(list(v['ints']), list(v['ids']), list(v['strs']), v['fl'], v['var'])
+            text = AT.text_of(tree, pools, lexemes)
+            if text in seen:
+                continue
+            seen.add(text)
+            try:
+                parse_sql(text, 'mindsdb')
+            except Exception:  # noqa
+                continue
+            out.append(text)
+    return out
+
+
 def wiring(run):
     from mindsdb_sql import parse_sql
+    derived = derived_inner_queries()
+    run.extra['derived_inner_queries'] = len(derived)
+    for name, (tmpl, attrs) in COMMANDS.items():
+        bad, n = None, 0
+        for q in derived:
+            try:
+                ast = parse_sql(tmpl.format(q=q), 'mindsdb')
+            except Exception:  # noqa
+                continue          # this inner query is not accepted inside this command
+            for a in attrs:
+                obj = ast
+                for part in a.split('.'):
+                    obj = getattr(obj, part)
+                n += 1
+                if strip_ws(obj) != strip_ws(q) and bad is None:
+                    bad = (q, obj)
+        run.validated += n
+        if bad:
+            run.counterexample('embedded-query:%s:derived' % name, '%s stores %r for inner query %r' % (name, bad[1], bad[0]),
+                               {'command': tmpl.format(q=bad[0]), 'stored': bad[1], 'inner': bad[0]}, True)
+        run.ob('wiring-derived:' + name, 'counterexample' if bad else 'discharged', '%d stored texts compared with grammar-derived inner queries' % n)
     inner_tree = parse_sql(INNER, 'mindsdb').to_tree()
     for name, (tmpl, attrs) in COMMANDS.items():
         sql = tmpl.format(q=INNER)
